@@ -10,6 +10,7 @@ BASE=${SEED_BASE:-/tmp/seed}
 WT=$BASE/$ID/repo
 OUT=$BASE/$ID/out
 cd $WT || exit 2
+export TMPDIR=$BASE/$ID/tmp; mkdir -p $TMPDIR
 git checkout -q -- .
 echo "== unchanged tree"
 cargo test --offline -j 8 -p $CRATE --test $TEST "$@" 2>&1 | grep -E "^test |test result|error" | tail -8
@@ -22,6 +23,7 @@ echo "== existing tests of $CRATE with the patch (lib + doc; demo excluded)"
 cargo test --offline -j 8 -p $CRATE --lib 2>&1 | grep -E "test result|FAILED|failed" | tail -4
 R2=${PIPESTATUS[0]}
 git checkout -q -- .
+rm -rf $TMPDIR
 echo "unchanged exit=$R0 patched exit=$R1 existing-lib-tests-with-patch exit=$R2"
 if [ "$R0" = "0" ] && [ "$R1" != "0" ] && [ "$R2" = "0" ]; then
   mkdir -p /verif/seeded/$NAME
